@@ -3,6 +3,7 @@ package main
 import (
 	"bytes"
 	"fmt"
+	"net/http"
 	"sort"
 	"time"
 
@@ -337,5 +338,196 @@ func runC01(c *Ctx) error {
 			}
 		}
 	}
+	c01ForeignSender(c)
+	c01AsyncBacklog(c)
 	return nil
+}
+
+// c01ForeignSender: the receiving half against a conforming peer that is not gws - it fragments messages as it likes
+// (empty fragments included), puts pings and pongs between the fragments and between the messages, sends its first
+// frames in the same network write as the handshake answer (a greeting), and, when compression was negotiated without
+// context takeover, compresses every message on its own.  Every message is delivered once, intact, in order.
+func c01ForeignSender(c *Ctx) {
+	rounds := 6
+	if !c.quick() {
+		rounds = 200
+	}
+	for r := 0; r < rounds; r++ {
+		for _, gwsIsClient := range []bool{true, false} {
+			for _, pmd := range []bool{false, true} {
+				ext := ""
+				pd := gws.PermessageDeflate{}
+				if pmd {
+					ext = "permessage-deflate; server_no_context_takeover; client_no_context_takeover"
+					pd = gws.PermessageDeflate{Enabled: true}
+				}
+				masked := !gwsIsClient // the foreign peer is a client when gws is the server
+				var msgs [][]byte
+				var ops []int
+				var stream [][]byte // frames in order
+				nping := 0
+				for i, ln := range []int{0, 5, 126, 300 + c.Rng.Intn(3000), 70000, 1 + c.Rng.Intn(200), 0, 2000} {
+					opc := 1 + (i+r)%2
+					var p []byte
+					if opc == 1 {
+						p = textPayload(c, ln, nil)
+					} else {
+						p = randBytes(c.Rng, ln)
+					}
+					msgs, ops = append(msgs, p), append(ops, opc)
+					wire, rsv1 := p, false
+					if pmd && (i+r)%3 != 0 {
+						wire, rsv1 = rfc7692Deflate(p, nil, 6), true
+					}
+					parts := [][]byte{wire}
+					if k := (i + r) % 4; k > 0 {
+						parts = splitSlices(c, wire, k+1)
+						if k == 3 {
+							parts = append([][]byte{{}}, parts...) // an empty first fragment
+						}
+					}
+					for j, part := range parts {
+						fop := opc
+						if j > 0 {
+							fop = 0
+						}
+						stream = append(stream, encodeFrame(frameSpec{Fin: j == len(parts)-1, Rsv1: rsv1 && j == 0, Opcode: fop, Masked: masked, Key: [4]byte{byte(i), byte(j), 7, 9}, Payload: part, DeclLen: -1}))
+						if j < len(parts)-1 && (i+j+r)%2 == 0 {
+							stream = append(stream, encodeFrame(frameSpec{Fin: true, Opcode: 9 + (i+j)%2, Masked: masked, Key: [4]byte{5, 5, byte(i), byte(j)}, Payload: head(p, 20+j), DeclLen: -1}))
+							nping++
+						}
+					}
+					if i%3 == 1 {
+						stream = append(stream, encodeFrame(frameSpec{Fin: true, Opcode: 9, Masked: masked, Key: [4]byte{6, 6, 6, byte(i)}, Payload: []byte("between messages"), DeclLen: -1}))
+						nping++
+					}
+				}
+				h := &recHandler{}
+				tap := newMemConn()
+				tag := fmt.Sprintf("foreign sender r=%d gws-is-client=%v pmd=%v", r, gwsIsClient, pmd)
+				glued := r % 4 // this many frames travel in the same chunk as the handshake answer
+				var conn *gws.Conn
+				var err error
+				if gwsIsClient {
+					conn, _, err = clientConn(&gws.ClientOption{PermessageDeflate: pd, CheckUtf8Enabled: true, ReadMaxPayloadSize: 1 << 20}, h, tap, ext, func(req *http.Request) []byte {
+						return append(defaultResponse(req, ext, ""), joinSlices(stream[:glued])...)
+					})
+				} else {
+					glued = 0
+					var hd map[string][]string
+					if pmd {
+						hd = map[string][]string{"Sec-WebSocket-Extensions": {ext}}
+					}
+					conn, err = serverConnWith(gws.NewUpgrader(h, &gws.ServerOption{PermessageDeflate: pd, CheckUtf8Enabled: true, ReadMaxPayloadSize: 1 << 20}), tap, hd)
+				}
+				if err != nil {
+					c.oracleFail("handshake failed: "+err.Error()+" ["+tag+"]", "valid-call-failed", map[string]any{"tag": tag})
+					continue
+				}
+				tap.feed(cutChunks(c, joinSlices(stream[glued:]), r%3)...)
+				tap.setEOF()
+				if !runWithTimeout(20*time.Second, conn.ReadLoop) {
+					c.oracleFail("read loop did not return ["+tag+"]", "read-hang", map[string]any{"tag": tag})
+					continue
+				}
+				got := msgEvents(h)
+				bad := ""
+				if len(got) != len(msgs) {
+					bad = fmt.Sprintf("%d messages sent, %d delivered", len(msgs), len(got))
+				} else {
+					for i := range msgs {
+						if got[i].Opcode != ops[i] || !bytes.Equal(got[i].Payload, msgs[i]) {
+							bad = fmt.Sprintf("message %d (opcode %d, %d bytes) was delivered with opcode %d and %d bytes", i, ops[i], len(msgs[i]), got[i].Opcode, len(got[i].Payload))
+							break
+						}
+					}
+				}
+				if bad != "" {
+					c.oracleFail(fmt.Sprintf("a conforming peer's messages (fragmented at will, pings in between, %d frame(s) in the same write as the handshake answer) were not delivered once, intact and in order: %s [%s]", glued, bad, tag),
+						"message-differs", map[string]any{"tag": tag, "glued_frames": glued})
+				}
+				_ = tap.Close()
+				c.count(tag, true, "apis=foreign-sender", fmt.Sprintf("pmd=%v", pmd))
+			}
+		}
+	}
+}
+
+// c01AsyncBacklog: one goroutine queues a mix of asynchronous sends while the queue's worker is busy with a plain task
+// (the write lock is free all the time): they reach the peer in queueing order.
+func c01AsyncBacklog(c *Ctx) {
+	rounds := 4
+	if !c.quick() {
+		rounds = 100
+	}
+	for r := 0; r < rounds; r++ {
+		for _, fromServer := range []bool{true, false} {
+			p, err := openPair(c, pairCfg{utf8: true}, r%2 == 0)
+			if err != nil {
+				c.oracleFail("pair: "+err.Error(), "valid-call-failed", nil)
+				return
+			}
+			from, toH := p.cli, p.sh
+			if fromServer {
+				from, toH = p.srv, p.ch
+			}
+			tag := fmt.Sprintf("async backlog r=%d fromServer=%v", r, fromServer)
+			gate := make(chan struct{})
+			started := make(chan struct{})
+			from.Async(func() { close(started); <-gate })
+			<-started
+			kinds := []string{"writevasync", "writeasync", "broadcast", "writeasync", "async-func", "writeasync", "writevasync", "writeasync"}
+			var want [][]byte
+			cbs := make(chan int, len(kinds))
+			var bcs []*gws.Broadcaster
+			for i, k := range kinds {
+				i := i
+				pl := []byte(fmt.Sprintf("queued #%d via %s (round %d)", i, k, r))
+				switch k {
+				case "writevasync":
+					from.WritevAsync(gws.OpcodeText, [][]byte{pl[:3], pl[3:]}, func(error) { cbs <- i })
+					want = append(want, pl)
+				case "writeasync":
+					from.WriteAsync(gws.OpcodeText, pl, func(error) { cbs <- i })
+					want = append(want, pl)
+				case "broadcast":
+					b := gws.NewBroadcaster(gws.OpcodeText, pl)
+					_ = b.Broadcast(from)
+					bcs = append(bcs, b)
+					want = append(want, pl)
+					cbs <- i
+				default:
+					from.Async(func() { cbs <- i })
+				}
+			}
+			close(gate)
+			for range kinds {
+				select {
+				case <-cbs:
+				case <-time.After(10 * time.Second):
+					c.oracleFail("a queued asynchronous send never completed ["+tag+"]", "message-lost-or-duplicated", map[string]any{"tag": tag})
+				}
+			}
+			got := waitMsgs(toH, len(want))
+			bad := ""
+			if len(got) != len(want) {
+				bad = fmt.Sprintf("%d queued, %d delivered", len(want), len(got))
+			} else {
+				for i := range want {
+					if !bytes.Equal(got[i].Payload, want[i]) {
+						bad = fmt.Sprintf("position %d holds %q, queued there: %q", i, head(got[i].Payload, 60), head(want[i], 60))
+						break
+					}
+				}
+			}
+			if bad != "" {
+				c.oracleFail(fmt.Sprintf("messages queued by one goroutine through the asynchronous entry points did not reach the peer in queueing order: %s [%s]", bad, tag), "message-differs", map[string]any{"tag": tag})
+			}
+			for _, b := range bcs {
+				_ = b.Close()
+			}
+			p.close()
+			c.count(tag, true, "apis=async-backlog")
+		}
+	}
 }
